@@ -81,3 +81,88 @@ def sweep(ctx, names, orders_for=None, trials=1, kinds=("smooth", "noise"), Ds=(
                 if max_cases and n >= max_cases:
                     return n
     return n
+
+
+_SIG = None
+
+
+def gensym_check(ctx, spec):
+    """the linear operator REGENERATED from the class's `_build_linear_operator` source (Gen.Steppers.*, evaluated by the
+    compiled driver at every stored mode with the attribute values of the built stepper) against the array the
+    implementation builds: validates the translator itself, class by class"""
+    global _SIG
+    import json
+    import os
+    from exponax import spectral as sp
+    import common as C
+    if _SIG is None:
+        _SIG = json.load(open(os.path.join(C.LEAN_DIR, "ExponaxModel", "Generated", "steppers_signatures.json")))
+    st = spec.build()
+    cls = type(st).__name__
+    ent = _SIG.get(cls)
+    if ent is None:
+        ctx.mismatch("stepper class without a regenerated linear operator", {"class": cls})
+        return False
+    prov = ent.get("inherits", cls)
+    ent = _SIG[prov]
+    D, N, L = st.num_spatial_dims, st.num_points, float(st.domain_extent)
+    dop = sp.build_derivative_operator(D, L, N)
+    impl = np.asarray(st._build_linear_operator(dop))
+    M = int(np.prod(impl.shape[1:]))
+    toks = []
+    for attr, kind in ent["params"]:
+        val = getattr(st, attr)
+        if kind == "K":
+            a = np.asarray(val)
+            if a.size == M and a.size > 1:
+                toks.append("p " + U.cctoks(a.ravel()))
+            else:
+                toks.append("s " + U.ctoks(complex(a.reshape(-1)[0])))
+        elif kind == "L" or kind.startswith("T"):
+            a = np.asarray(val, dtype=complex).ravel()
+            toks.append(f"v {a.size} " + U.cctoks(a))
+        elif kind == "M":
+            a = np.asarray(val, dtype=complex)
+            toks.append(f"m {a.shape[0]} {a.shape[1]} " + U.cctoks(a.ravel()))
+        elif kind == "B":
+            toks.append(f"b {int(bool(val))}")
+        elif kind == "N":
+            toks.append(f"n {int(val)}")
+        else:
+            ctx.mismatch("unknown parameter kind in steppers_signatures.json", {"class": cls, "attr": attr, "kind": kind})
+            return False
+    line = f"gensym {prov} {D} {N} {U.ftok(2 * np.pi / L)} {len(toks)} " + " ".join(toks)
+    vals = np.asarray(ctx.driver.ask_complex(line))
+    Cc = impl.shape[0]
+    model = vals.reshape(M, Cc).T.reshape(impl.shape)
+    ctx.count(("gensym", cls, D, N % 2), True)
+    return ctx.compare(f"{cls}._build_linear_operator vs regenerated Gen.Steppers.{prov}_linear_operator", impl, model,
+                       cell=("gensym", cls, D), detail={"class": cls, "D": D, "N": N, "L": L})
+
+
+def gensym_sweep(ctx, names, Ds=(1, 2, 3)):
+    rng = np.random.default_rng(ctx.seed + 23)
+    R = S.registry()
+    for name in names:
+        for D in Ds:
+            N = int(rng.choice(grid_sizes("quick", D)))
+            S.FORCED_FLAGS.clear()
+            del S.DRAWN_FLAGS[:]
+            st0 = rng.bit_generator.state
+            spec = R[name](rng, D, N, 2 if name not in S.LINEAR else 0)
+            if spec is None:
+                continue
+            gensym_check(ctx, spec)
+            drawn = list(dict.fromkeys(S.DRAWN_FLAGS))
+            if drawn and len(drawn) <= 3:
+                import itertools
+                st1 = rng.bit_generator.state
+                for combo in itertools.product((False, True), repeat=len(drawn)):
+                    rng.bit_generator.state = st0
+                    S.FORCED_FLAGS.clear()
+                    S.FORCED_FLAGS.update(dict(zip(drawn, combo)))
+                    sp2 = R[name](rng, D, N, 2 if name not in S.LINEAR else 0)
+                    if sp2 is not None:
+                        gensym_check(ctx, sp2)
+                S.FORCED_FLAGS.clear()
+                rng.bit_generator.state = st1
